@@ -72,7 +72,9 @@ class HyperVFile:
                 if entry.allocated == 0:
                     continue
 
-                if entry.type == ObjectEntryType.ObjectTable:
+                if entry.type == ObjectEntryType.ObjectTable and all(
+                    table.offset != entry.offset for table in self.object_tables
+                ):
                     # Haven't seen a file yet with additional object tables, but I assume this is how it'd work
                     new_object_table = HyperVStorageObjectTable(self, entry.offset)
                     self.object_tables.append(new_object_table)
